@@ -186,10 +186,25 @@ class CallMixin(object):
         if fty is None:
             raise OutOfReach('store to unknown field %s.%s' % (cname, attr))
         key = self.world.field_key(cname, attr)
+        st, val = self.narrow_for_store(st, val, fty, '%s.%s' % (cname, attr))
         st, t = self.store_term(st, val, code_of(fty))
         self.check_assignable(val, fty, '%s.%s' % (cname, attr))
         st = self.HS(st, key, z3.Store(self.H(st, key), obj.term, t))
         return st
+
+    def narrow_for_store(self, st, val, ty, where):
+        """a None-able value stored into a non-optional place: the obligation that it is not None is emitted (heap
+        well-typedness is checked, not assumed, at stores) and the value is narrowed"""
+        if val.is_py or val.ty.kind != 'opt' or ty.kind in ('opt', 'any'):
+            return st, val
+        inner = val.ty.args[0]
+        isn = self.is_none(val)
+        goal = z3.Not(isn) if not isinstance(isn, bool) else z3.BoolVal(not isn)
+        self.vcs.append(VC('%s#store.nonnull.%s@%s' % (self.top_key, where, fresh_name('site')), st.pc, goal, 'type',
+                           {'clause': 'value stored into %s is not None' % where}))
+        if inner.is_ref:
+            return st, SV(val.term, inner)
+        return self.unbox(st, val.term, inner)
 
     def check_assignable(self, val, ty, where):
         """static type check of a store (keeps the heap well-typed w.r.t. the schema)"""
